@@ -81,6 +81,21 @@ def run_unit(unit, repo, workdir, variables=None, rlimit=None, suffix=''):
             res1 = _run_unit_once(unit, repo, workdir, v1, rlimit, suffix)
             res1.wall_s += res.wall_s
             res, variables = res1, v1
+    # a std type the extracted declarations name but Verus has no specification for (a refactor added a field of that type): it is
+    # declared opaque (external_type_specification + external_body: no assumption about it) and the unit is run again, a few times at most
+    for _round in range(3):
+        unsupported = set()
+        for t in res.tooling:
+            unsupported.update(re.findall(r'`((?:std|core|alloc)::[A-Za-z0-9_:]+)` is not supported \(note: you may be able to add a Verus specification', t))
+        have = list((variables or {}).get('__extra_ext_types__') or [])
+        new_ = sorted(unsupported - set(have))
+        if not new_:
+            break
+        v0 = dict(variables or {})
+        v0['__extra_ext_types__'] = have + new_
+        res0 = _run_unit_once(unit, repo, workdir, v0, rlimit, suffix)
+        res0.wall_s += res.wall_s
+        res, variables = res0, v0
     bad = getattr(res, 'compile_bad_blocks', None)
     if bad and not (variables or {}).get('__skip_blocks__'):
         v2 = dict(variables or {})
@@ -106,6 +121,14 @@ def _run_unit_once(unit, repo, workdir, variables=None, rlimit=None, suffix=''):
             for f_, name in extra_consts:
                 ins += [f'//@@ item file={f_} const={name}', '//@@ end']
             lines_[at + 1:at + 1] = ins
+            tmpl = '\n'.join(lines_)
+    ext_types = (variables or {}).get('__extra_ext_types__') or []
+    if ext_types:
+        lines_ = tmpl.split('\n')
+        at = next((i_ for i_, l_ in enumerate(lines_) if l_.strip() == 'verus! {'), None)
+        if at is not None:
+            lines_[at + 1:at + 1] = [f'#[verifier::external_type_specification] #[verifier::external_body] pub struct VxExtTy{n_}({t_});'
+                                     for n_, t_ in enumerate(ext_types)]
             tmpl = '\n'.join(lines_)
     try:
         gen = template.generate(repo, tmpl, variables)
